@@ -25,10 +25,12 @@ package maven
 // ---- constructors: value xor error (C06); the fact is structural (untagged) because callers rely on it
 
 //@ func (*Ecosystem).NewVersion
+//@   ensures text: result1 == nil ==> result0.original == arg1 || result0.original == strings.TrimSpace(arg1)   [C18]
 //@   ensures xor: (result0 != nil) == (result1 == nil)
 //@   ensures wf: result1 == nil ==> wfElems(result0.elements)
 
 //@ func (*Ecosystem).NewVersionRange
+//@   ensures text: result1 == nil ==> result0.original == arg1 || result0.original == strings.TrimSpace(arg1)   [C18]
 //@   ensures xor: (result0 != nil) == (result1 == nil)
 
 // ---- ranges: maven has no comparator syntax (brackets only, C05); a bound holds exactly when Compare says so
@@ -57,3 +59,11 @@ package maven
 //@ func parseVersionString
 //@   loop 1 invariant wfElems(elements)
 //@   ensures wf: wfElems(result)
+
+// ---- stored text (C18)
+
+//@ func (*Version).String
+//@   ensures text: result == arg0.original   [C18]
+
+//@ func (*VersionRange).String
+//@   ensures text: result == arg0.original   [C18]
